@@ -33,7 +33,7 @@ def mk_atoms(pos, el, order, shift=(0, 0, 0)):
     atoms = []
     for i in order:
         x, y, z = (10 * (pos[i][j] + shift[j]) for j in range(3))
-        name = {"C": "C1", "H": "H1", "S": "S1", "F": "F1", "N": "N1", "O": "O1"}[el[i]]
+        name = {"C": "C1", "H": "H1", "S": "S1", "F": "F1", "N": "N1", "O": "O1", "SE": "SE1"}[el[i]]
         a = Atom(pdbio.atom_line("HETATM", serial=i, name=name, resn="LIG", chain="A", num=1, x=x, y=y, z=z, elem=el[i]))
         a.pkv_id = i
         atoms.append(a)
@@ -154,7 +154,7 @@ def run(ctx):
         pos, el = {}, {}
         for i in range(1, n + 1):
             pos[i] = tuple(org[j] + rng.randrange(0, side) for j in range(3))
-            el[i] = rng.choice("CCCHHSSFNO")
+            el[i] = rng.choice(list("CCCHHSSFNO") + ["SE"])
         # knife-edge filter (exact, integer): drop clouds with a pair exactly on a threshold
         ke = False
         ths = {v * v for v in th.values()}
